@@ -146,10 +146,10 @@ theorem foldl_set_fresh (kvs : List (Bytes × List Nat)) (d : Dict)
 
 /-- what a name must satisfy for `line[:colon].strip()` to give it back: non-empty, its first
     and last bytes are not whitespace for `str.strip()`, and it does not break the line -/
-structure WFName (n : Bytes) : Prop where
+structure WFName (p : Nat → Bool) (n : Bytes) : Prop where
   ne : n ≠ []
-  head : ∀ c, n.head? = some c → isWsT c = false
-  last : ∀ c, n.getLast? = some c → isWsT c = false
+  head : ∀ c, n.head? = some c → p c = false
+  last : ∀ c, n.getLast? = some c → p c = false
   noLF : 10 ∉ n
   noCR : 13 ∉ n
 
@@ -158,20 +158,26 @@ theorem padLeft_length_pos (w : Nat) (s : Bytes) (h : s ≠ []) : ∃ k, (padLef
   | nil => exact absurd rfl h
   | cons a as => exact ⟨List.length (List.replicate (w - (a :: as).length) 32) + as.length, by simp [padLeft]; omega⟩
 
-theorem strip_padLeft (w : Nat) (n : Bytes) (h : WFName n) : stripP isWsT (padLeft w n) = n := by
-  have := stripP_pad isWsT (List.replicate (w - n.length) 32) n [] (allP_replicate _)
+theorem strip_padLeft (p : Nat → Bool) (hp : p 32 = true) (w : Nat) (n : Bytes) (h : WFName p n) :
+    stripP p (padLeft w n) = n := by
+  have hall : AllP p (List.replicate (w - n.length) 32) := by
+    intro c hc
+    rw [List.mem_replicate] at hc
+    rw [hc.2]; exact hp
+  have := stripP_pad p (List.replicate (w - n.length) 32) n [] hall
     (by intro c hc; cases hc) h.head h.last h.ne
   simpa [padLeft] using this
 
 /-- `netLine` on a kernel-rendered line, for any column configuration that looks for the
-    last colon and unpacks sixteen values -/
-theorem netLine_render (cfg : NetCfg) (hr : cfg.rfind = true) (hu : cfg.unpack.length = 16)
-    (i : Iface) (hn : WFName i.name) :
+    last colon and unpacks sixteen values: the counters are the kernel's, the name is what
+    `strip` leaves of the padded name -/
+theorem netLine_render_raw (cfg : NetCfg) (hr : cfg.rfind = true) (hu : cfg.unpack.length = 16)
+    (i : Iface) (hne : i.name ≠ []) :
     netLine cfg (renderNetLine i) =
       match lookups (cfg.unpack.zip (i.cells.map (·.2))) cfg.output with
       | none => .err .nameError
-      | some t => .ok (i.name, t) := by
-  obtain ⟨k, hk⟩ := padLeft_length_pos 6 i.name hn.ne
+      | some t => .ok (stripP cfg.nameWs (padLeft 6 i.name), t) := by
+  obtain ⟨k, hk⟩ := padLeft_length_pos 6 i.name hne
   have hcolon : rfindIdx? 58 (renderNetLine i) = some (k + 1) := by
     unfold renderNetLine
     rw [rfindIdx?_last 58 _ _ (odd_not_mem_renderCells 58 _ odd58), hk]
@@ -188,13 +194,21 @@ theorem netLine_render (cfg : NetCfg) (hr : cfg.rfind = true) (hu : cfg.unpack.l
     rw [hl, List.drop_left]
   have hlen : (i.cells.map fun wv => wv.2).length = 16 := by simp [Iface.cells]
   unfold netLine
-  simp only [hr, if_true, hcolon, htake, hdrop, strip_padLeft 6 i.name hn, split_renderCells]
+  simp only [hr, if_true, hcolon, htake, hdrop, split_renderCells]
   have hi : ints (List.map (fun wv => renderDec wv.2) i.cells) = some (i.cells.map (·.2)) := by
     have := ints_renderDec (i.cells.map (·.2))
     simpa [List.map_map, Function.comp_def] using this
   rw [hi]
   simp only [hlen, hu, ne_eq, not_true_eq_false, if_false]
   cases lookups (cfg.unpack.zip (List.map (fun x => x.snd) i.cells)) cfg.output <;> rfl
+
+theorem netLine_render (cfg : NetCfg) (hr : cfg.rfind = true) (hu : cfg.unpack.length = 16)
+    (hsp : cfg.nameWs 32 = true) (i : Iface) (hn : WFName cfg.nameWs i.name) :
+    netLine cfg (renderNetLine i) =
+      match lookups (cfg.unpack.zip (i.cells.map (·.2))) cfg.output with
+      | none => .err .nameError
+      | some t => .ok (i.name, t) := by
+  rw [netLine_render_raw cfg hr hu i hn.ne, strip_padLeft cfg.nameWs hsp 6 i.name hn]
 
 /-! ### the whole `/proc/net/dev` -/
 
@@ -227,18 +241,18 @@ theorem netFold_map {α : Type} (cfg : NetCfg) (xs : List α) (render : α → B
     simp only [List.map_cons, netFold, h x (by simp), List.foldl_cons]
     exact ih (fun y hy => h y (by simp [hy])) _
 
-structure NetWF (h1 h2 : Bytes) (ifs : List Iface) : Prop where
+structure NetWF (p : Nat → Bool) (h1 h2 : Bytes) (ifs : List Iface) : Prop where
   h1LF : 10 ∉ h1
   h1CR : 13 ∉ h1
   h2LF : 10 ∉ h2
   h2CR : 13 ∉ h2
-  names : ∀ i ∈ ifs, WFName i.name
+  names : ∀ i ∈ ifs, WFName p i.name
   nodup : (ifs.map (·.name)).Nodup
 
 theorem netPlatform_render (cfg : NetCfg) (hr : cfg.rfind = true) (hu : cfg.unpack.length = 16)
-    (hs : cfg.skip = 2) (t : Iface → List Nat)
+    (hs : cfg.skip = 2) (hsp : cfg.nameWs 32 = true) (t : Iface → List Nat)
     (ht : ∀ i, lookups (cfg.unpack.zip (i.cells.map (·.2))) cfg.output = some (t i))
-    (h1 h2 : Bytes) (ifs : List Iface) (wf : NetWF h1 h2 ifs) :
+    (h1 h2 : Bytes) (ifs : List Iface) (wf : NetWF cfg.nameWs h1 h2 ifs) :
     netPlatform cfg (renderNetDev h1 h2 ifs) = .ok (ifs.map fun i => (i.name, t i)) := by
   unfold netPlatform renderNetDev
   rw [textLines_unlines]
@@ -249,7 +263,7 @@ theorem netPlatform_render (cfg : NetCfg) (hr : cfg.rfind = true) (hu : cfg.unpa
       · intro _ _ x hx; cases hx
       · simpa [List.map_map, Function.comp_def] using wf.nodup
     · intro i hi
-      rw [netLine_render cfg hr hu i (wf.names i hi), ht i]
+      rw [netLine_render cfg hr hu hsp i (wf.names i hi), ht i]
   · intro l hl
     simp only [List.mem_cons, List.mem_map] at hl
     rcases hl with rfl | rfl | ⟨i, hi, rfl⟩
